@@ -687,7 +687,11 @@ func (s *Service) serve(nc Conn) error {
 	// The work queue is set up under the lock: a callback submitted while the
 	// previous run was being stopped may only now get to look at it.
 	s.mu.Lock()
-	s.workcond = sync.Cond{L: &s.mu}
+	if s.workcond.L == nil {
+		// Set once, not per run: a callback queued while the previous run was
+		// being stopped may signal the condition only now.
+		s.workcond.L = &s.mu
+	}
 	s.workbuf = make([]*work, s.inChannelSize)
 	s.workqueue = s.workbuf[:0]
 	s.rwork = make(map[string]*work, s.inChannelSize)
